@@ -287,7 +287,7 @@ def _key_kind(k, rd, nid, fn, cfg, depth=0):
                 kinds.add(_key_kind(d.value, rd, d.node, fn, cfg, depth + 1))
             elif d.kind == "for":
                 it = norm(d.value)
-                if any(x in it for x in ("sorted_scopes", "data.symbols", "self.symbols", "all_scopes", ".structures")):
+                if any(x in it for x in ("sorted_scopes", "data.symbols", "self.symbols", "all_scopes", ".structures")) or _keys_of_tables(d.value, rd, d.node, fn, cfg):
                     kinds.add("iteration")
                 else:
                     kinds.add(None)
@@ -297,3 +297,59 @@ def _key_kind(k, rd, nid, fn, cfg, depth=0):
             return None
         return "/".join(sorted(kinds))
     return None
+
+
+def _keys_of_tables(e, rd, nid, fn, cfg, depth=0):
+    """Are all elements of the iterable *e* keys of the per-compile tables (functions / symbols / structures / modules)?  Follows
+    lists built with append, sorted(), set differences, comprehensions that pass elements through, and picks like ready[0]."""
+    if depth > 14:
+        return False
+    if isinstance(e, ast.Call) and isinstance(e.func, ast.Attribute) and e.func.attr == "keys" and any(x in norm(e.func.value) for x in ("functions", "symbols", "structures", "modules")):
+        return True
+    if isinstance(e, ast.Attribute) and e.attr in ("functions", "symbols", "structures", "modules"):
+        return True
+    if isinstance(e, ast.Call) and norm(e.func) in ("sorted", "set", "list", "frozenset", "tuple", "reversed", "iter") and e.args:
+        return _keys_of_tables(e.args[0], rd, nid, fn, cfg, depth + 1)
+    if isinstance(e, ast.BinOp) and isinstance(e.op, (ast.Sub, ast.BitAnd)):
+        return _keys_of_tables(e.left, rd, nid, fn, cfg, depth + 1)
+    if isinstance(e, ast.BinOp) and isinstance(e.op, (ast.BitOr, ast.Add)):
+        return _keys_of_tables(e.left, rd, nid, fn, cfg, depth + 1) and _keys_of_tables(e.right, rd, nid, fn, cfg, depth + 1)
+    if isinstance(e, (ast.ListComp, ast.SetComp, ast.GeneratorExp)) and len(e.generators) == 1 and isinstance(e.elt, ast.Name) \
+            and isinstance(e.generators[0].target, ast.Name) and e.elt.id == e.generators[0].target.id:
+        return _keys_of_tables(e.generators[0].iter, rd, nid, fn, cfg, depth + 1)
+    if isinstance(e, ast.Subscript) and not isinstance(e.slice, ast.Slice):
+        return _keys_of_tables(e.value, rd, nid, fn, cfg, depth + 1)       # one element of a list of keys
+    if isinstance(e, ast.Name):
+        ds = rd.at(nid, e.id)
+        if not ds:
+            return False
+        ok = True
+        for d in ds:
+            if d.kind == "assign" and d.value is not None and not d.index:
+                v = d.value
+                if isinstance(v, (ast.List, ast.Set, ast.Tuple)) and not v.elts or isinstance(v, ast.Call) and norm(v.func) in ("set", "list") and not v.args:
+                    continue      # starts empty: filled below
+                ok = ok and _keys_of_tables(v, rd, d.node, fn, cfg, depth + 1)
+            elif d.kind == "for" and d.value is not None:
+                ok = ok and _keys_of_tables(d.value, rd, d.node, fn, cfg, depth + 1)
+            else:
+                ok = False
+        # elements added in place
+        for c in ast.walk(fn):
+            if isinstance(c, ast.Call) and isinstance(c.func, ast.Attribute) and isinstance(c.func.value, ast.Name) and c.func.value.id == e.id \
+                    and c.func.attr in ("append", "add", "extend", "update") and c.args:
+                ids = live_ids(cfg, c)
+                at = ids[0] if ids else nid
+                a = c.args[0]
+                if c.func.attr in ("append", "add"):
+                    # a single element: a loop variable / pick over keys
+                    if isinstance(a, ast.Name):
+                        da = rd.at(at, a.id)
+                        ok = ok and bool(da) and all((x.kind == "for" and x.value is not None and _keys_of_tables(x.value, rd, x.node, fn, cfg, depth + 1)) or
+                                                     (x.kind == "assign" and x.value is not None and _keys_of_tables(x.value, rd, x.node, fn, cfg, depth + 1)) for x in da)
+                    else:
+                        ok = ok and _keys_of_tables(a, rd, at, fn, cfg, depth + 1)
+                else:
+                    ok = ok and _keys_of_tables(a, rd, at, fn, cfg, depth + 1)
+        return ok
+    return False
